@@ -113,13 +113,16 @@ const (
 	c04Try
 	c04Throw
 	c04Abort
+	c04MoveNeo
+	c04Vote
 )
 
-var c04OpNames = []string{"skip", "put", "del", "notify", "notifyval", "notifyfee", "move", "setfee", "seq", "call", "try", "throw", "abort"}
+var c04OpNames = []string{"skip", "put", "del", "notify", "notifyval", "notifyfee", "move", "setfee", "seq", "call", "try", "throw", "abort", "moveneo", "vote"}
 
 // c04Node is one node of a call tree. JSON form is what replay files carry.
 //
-//	put k v | del k | notify e | notifyval k | notifyfee | move to amt [cb] | setfee v |
+//	put k v | del k | notify e | notifyval k | notifyfee | move to amt [cb] | moveneo to amt [cb] | setfee v |
+//	vote v (set-up only: 1 = vote for the candidate, 0 = revoke) |
 //	seq ops | call c flags body | try body [catch] [finally] | throw | abort | skip
 type c04Node struct {
 	Op    string     `json:"op"`
@@ -185,6 +188,14 @@ func (n *c04Node) coq() string {
 		return fmt.Sprintf("(Move %d %d %s)", n.C, n.V, cb)
 	case c04SetFee:
 		return fmt.Sprintf("(SetFee %d)", n.V)
+	case c04MoveNeo:
+		cb := "Skip"
+		if n.Body != nil {
+			cb = n.Body.coq()
+		}
+		return fmt.Sprintf("(MoveNeo %d %d %s)", n.C, n.V, cb)
+	case c04Vote:
+		return "Abort" // not part of the model: set-up transactions only
 	case c04Seq:
 		if len(n.Ops) == 0 {
 			return "Skip"
@@ -218,11 +229,17 @@ type c04Env struct {
 	plain     []util.Uint160 // plain accounts n..n+len-1 (no contract there, no payment callback)
 	gas       util.Uint160
 	policy    util.Uint160
+	neo       util.Uint160
+	cand      []byte         // public key of the registered candidate
+	senders   []util.Uint160 // accounts 5,6: plain accounts that send transactions (GAS only)
 }
 
 func (e *c04Env) account(i int) util.Uint160 {
 	if i < len(e.contracts) {
 		return e.contracts[i]
+	}
+	if j := i - len(e.contracts) - len(e.plain); j >= 0 && j < len(e.senders) {
+		return e.senders[j]
 	}
 	return e.plain[(i-len(e.contracts))%len(e.plain)]
 }
@@ -251,11 +268,18 @@ func (e *c04Env) pushItem(a *c04Asm, n *c04Node) {
 	case c04Notify, c04SetFee, c04Abort:
 		a.pushInt(int64(n.V))
 		cnt = 2
-	case c04Move:
+	case c04Move, c04MoveNeo:
 		e.pushItem(a, n.Body)
 		a.pushInt(int64(n.V))
 		a.pushBytes(e.account(n.C).BytesBE())
 		cnt = 4
+	case c04Vote:
+		if n.V != 0 {
+			a.pushBytes(e.cand)
+		} else {
+			a.op(opcode.PUSHNULL)
+		}
+		cnt = 2
 	case c04Seq:
 		for i := len(n.Ops) - 1; i >= 0; i-- {
 			e.pushItem(a, n.Ops[i])
@@ -383,7 +407,7 @@ func (e *c04Env) entryScript(n *c04Node) []byte {
 
 // c04Interpreter assembles the test contract: method run(p) (offset 0, returns Integer) and
 // onNEP17Payment(from, amount, data) (void; runs `data` as a tree when it is not null).
-func c04Interpreter(gas, policy util.Uint160) (script []byte, runOff, payOff int) {
+func c04Interpreter(gas, policy, neo util.Uint160) (script []byte, runOff, payOff int) {
 	a := c04NewAsm()
 	item := func(i int) { // p[i]
 		a.op(opcode.LDARG0)
@@ -474,6 +498,33 @@ func c04Interpreter(gas, policy util.Uint160) (script []byte, runOff, payOff int
 	a.pushStr("transfer")
 	a.pushBytes(gas.BytesBE())
 	a.syscall(interopnames.SystemContractCall)
+	a.jmp(opcode.JMPL, "ret")
+
+	a.label("op_moveneo")
+	a.op(opcode.DROP)
+	item(3)
+	item(2)
+	item(1)
+	a.syscall(interopnames.SystemRuntimeGetExecutingScriptHash)
+	a.pushInt(4)
+	a.op(opcode.PACK)
+	a.pushInt(15)
+	a.pushStr("transfer")
+	a.pushBytes(neo.BytesBE())
+	a.syscall(interopnames.SystemContractCall)
+	a.jmp(opcode.JMPL, "ret")
+
+	a.label("op_vote")
+	a.op(opcode.DROP)
+	item(1)
+	a.syscall(interopnames.SystemRuntimeGetExecutingScriptHash)
+	a.pushInt(2)
+	a.op(opcode.PACK)
+	a.pushInt(15)
+	a.pushStr("vote")
+	a.pushBytes(neo.BytesBE())
+	a.syscall(interopnames.SystemContractCall)
+	a.op(opcode.ASSERT)
 	a.jmp(opcode.JMPL, "ret")
 
 	a.label("op_setfee")
